@@ -130,6 +130,16 @@ Theorem C07_zero_batch_leaves_enough_candidates : forall A cfg, exact A = false 
 Proof. exact zero_batch_leaves_enough. Qed.
 Print Assumptions C07_zero_batch_leaves_enough_candidates.
 
+(* ... and the batch of cfer-batch (cfer.py's batchDefeat: the longest qualifying prefix of the hopefuls in ascending order of tally), in
+   every state with distinct candidate ids: its members are distinct, and a non-empty batch leaves at least as many hopefuls as there
+   are seats to fill (Proofs/WinnersCferBatch.v).  That its members are hopefuls: cfer_batch_hopeful (Proofs/ForwardGreg2.v). *)
+From Droop Require Import Proofs.ForwardGreg2 Proofs.WinnersCferBatch.
+Theorem C07_cfer_batch_leaves_enough_candidates : forall A cfg, exact A = false -> forall (s : est A), NoDup (map (@cid A) (cands s)) ->
+  NoDup (map (@cid A) (cfer_batch A cfg s)) /\ Forall (fun c => In c (hopefuls A s)) (cfer_batch A cfg s) /\
+  (cfer_batch A cfg s <> [] -> nlen (cfer_batch A cfg s) <= nlen (hopefuls A s) - seats_left A cfg s).
+Proof. exact (fun A cfg Hex s H => conj (proj1 (cfer_batch_prefix A cfg Hex s H)) (conj (cfer_batch_hopeful A cfg s) (proj2 (cfer_batch_prefix A cfg Hex s H)))). Qed.
+Print Assumptions C07_cfer_batch_leaves_enough_candidates.
+
 (* ---- Meek family: "within the current total surplus".  The exclusion step of meek, warren and meek-prf, in every state,
    when it does not crash: the excluded candidate is a hopeful whose tally is at most the lowest hopeful tally plus the total
    surplus (plus nothing when rounding has left the surplus negative), and nobody else's status changes.
